@@ -216,4 +216,24 @@ theorem flyOps_noReentry (env : Env) (h : NoReentry env) (o : Out) : flyOps env 
   intro y _
   exact absScr_noReentry env h y
 
+/-- no call made from inside during the history `outs` places `x` (a fact about what happened) -/
+def NoFlyPlaces (env : Env) (x : AItem Cb) (outs : List Out) : Prop :=
+  ∀ o ∈ outs, ∀ c ∈ flyOps env o, x ∉ Spec.TdmaSched.placed c
+
+instance (env : Env) (x : AItem Cb) (outs : List Out) : Decidable (NoFlyPlaces env x outs) := by
+  unfold NoFlyPlaces; infer_instance
+
+theorem placed_ne_ops (x : AItem Cb) (ops : List Op)
+    (hother : ∀ op ∈ ops, x ∉ Spec.TdmaSched.placed (absOp op)) :
+    ∀ op ∈ ops, ∀ it ∈ Spec.TdmaSched.placed (absOp op), it ≠ x := by
+  intro op hop it hit hx
+  subst hx
+  exact hother op hop hit
+
+theorem placed_ne_fly (env : Env) (x : AItem Cb) (outs : List Out) (h : NoFlyPlaces env x outs) :
+    ∀ o ∈ outs, ∀ c ∈ flyOps env o, ∀ it ∈ Spec.TdmaSched.placed c, it ≠ x := by
+  intro o ho c hc it hit hx
+  subst hx
+  exact h o ho c hc hit
+
 end OsmoVerif.TdmaSched
